@@ -91,7 +91,7 @@ CHECKS = {
     "C08": dict(
         text="build_supervised_mri_transforms is regenerated on every run as a function from the truthiness of its parameters to a list of stages; a symbolic executor describes every value of the sample by a term over the raw k-space and a degree calculus assigns each term its homogeneity degree. "
              "Theorems: a term of degree d evaluates on c x raw (c > 0) to c^d times its value, for any interpretation of the operations that satisfies the stated homogeneity contracts; for every one of the 2 x 2^16 configurations with a masking function and scaling key kspace / masked_kspace (decided by computation, lifted to a universal statement) the pipeline runs, "
-             "scaling_factor has degree 1 and every normalised output, mask and map degree 0, masked_kspace = (mask x K)/S with the sample's sampling mask, target = image(K/S) (with the sample's sensitivity map for SENSE-type targets) and a kept kspace = K/S for the same K and S; the regenerated padding threshold is relative (and an absolute one would not be); the mask generator reads only the file name and shapes. "
+             "scaling_factor has degree 1 and every normalised output, mask and map degree 0, masked_kspace = (mask x K)/S with the sample's sampling mask, target = image(K/S) (with the sample's sensitivity map for SENSE-type targets) and a kept kspace = K/S for the same K and S; the same for the self-supervised pipeline (regenerated tail of build_mri_transforms: mask splitter, renames, deletions), whose input and target k-spaces are that normalised masked k-space restricted to the two masks drawn from the sampling mask; the regenerated padding threshold is relative (and an absolute one would not be); the mask generator reads only the file name and shapes. "
              "Tied by exact correspondence of the per-stage degrees of every key (the real Compose run stage by stage on x and 4x, bit-exact) and by end-to-end oracles (dyadic factors bit-exact, arbitrary factors to 1e-4, consistency, crop shape, finiteness, same mask per file name; supervised and SSL pipelines).",
         note=PROOF_NOTE + "Modelled, not verified: the homogeneity contracts of crop / rescale / pad / SVD coil compression / mask generation / sensitivity estimation / order statistics / reconstruction / safe_divide (validated stage by stage, not proved); the stage semantics is a hand model; random rotations / flips are switched off in the correspondence (SystemRandom); NaN/Inf freedom observed only; the body-coil image is not normalised by the supervised builder and is not claimed.",
         technique="Coq proof (term induction for homogeneity; exhaustive computation over the finite configuration space lifted with forallb_forall) over a stage list regenerated from the builder + exact per-stage degree correspondence",
